@@ -487,4 +487,216 @@ theorem Kernel.children_direct (k : Kernel) (pid : Nat) (l : List Nat) (h : (k.c
           simp only [Bool.and_eq_true, decide_eq_true_eq] at this
           exact this.1
 
+/-! ### children of the daemon stay children of the daemon
+
+The daemon has no entry in the process table (it is "pid 0" only in the `ppid` field, and pids are
+positive), so no death ever re-parents its children. -/
+
+/-- every pid of the process table is positive -/
+def Kernel.PosK (k : Kernel) : Prop := ∀ q ∈ k.procs.map (·.pid), 0 < q
+
+/-- the process table knows `pid` as a child of the daemon -/
+def Kernel.DC (k : Kernel) (pid : Nat) : Prop := ∃ p, k.find pid = some p ∧ p.ppid = some 0
+
+def KDMono (k k' : Kernel) : Prop := ∀ pid, k.DC pid → k'.DC pid
+
+theorem Kernel.PosK.step {k k' : Kernel} (h : k.PosK) (hs : KStep k k') : k'.PosK := by
+  unfold Kernel.PosK
+  rw [hs.pids]; exact h
+
+namespace KDMono
+
+theorem refl (k : Kernel) : KDMono k k := fun _ h => h
+
+theorem trans {a b c : Kernel} (h1 : KDMono a b) (h2 : KDMono b c) : KDMono a c :=
+  fun pid h => h2 pid (h1 pid h)
+
+theorem map (k : Kernel) (f : KProc → KProc) (hf : ∀ p ∈ k.procs, (f p).pid = p.pid ∧ (p.ppid = some 0 → (f p).ppid = some 0))
+    (hf' : ∀ p, (f p).pid = p.pid) (k' : Kernel) (hk : k'.procs = k.procs.map f) : KDMono k k' := by
+  intro pid ⟨p, hp, hg⟩
+  have hm : p ∈ k.procs := List.mem_of_find?_eq_some hp
+  refine ⟨f p, ?_, (hf p hm).2 hg⟩
+  simp only [Kernel.find] at hp ⊢
+  rw [hk, KMono.find_map _ _ hf', hp]
+  rfl
+
+theorem same (k k' : Kernel) (h : k'.procs = k.procs) : KDMono k k' :=
+  map k id (fun _ _ => ⟨rfl, fun h => h⟩) (fun _ => rfl) k' (by rw [h, List.map_id])
+
+theorem upd (k : Kernel) (pid : Nat) (f : KProc → KProc) (hf : ∀ p, (f p).pid = p.pid ∧ (f p).ppid = p.ppid) :
+    KDMono k (k.upd pid f) := by
+  apply map k (fun p => if p.pid = pid then f p else p) _ _ _ rfl
+  · intro p _
+    split
+    · exact ⟨(hf p).1, fun h => by rw [(hf p).2]; exact h⟩
+    · exact ⟨rfl, fun h => h⟩
+  · intro p; split
+    · exact (hf p).1
+    · rfl
+
+theorem dead (k : Kernel) (pid st : Nat) (hpos : 0 < pid) : KDMono k (k.dead pid st) := by
+  apply map k _ _ _ _ rfl
+  · intro p _
+    split
+    · exact ⟨rfl, fun h => h⟩
+    · split
+      · rename_i h1 h2
+        refine ⟨rfl, fun h => ?_⟩
+        rw [h] at h2
+        simp only [Option.some.injEq] at h2
+        omega
+      · exact ⟨rfl, fun h => h⟩
+  · intro p; split
+    · rfl
+    · split <;> rfl
+
+theorem die (k : Kernel) (pid st : Nat) (hk : k.PosK) : KDMono k (k.die pid st) := by
+  unfold Kernel.die
+  split
+  · rename_i p hp
+    split
+    · apply dead
+      have hm : p ∈ k.procs := List.mem_of_find?_eq_some hp
+      have hpid : p.pid = pid := by
+        have := List.find?_some hp
+        simpa using this
+      rw [← hpid]
+      exact hk _ (List.mem_map.mpr ⟨p, hm, rfl⟩)
+    · exact refl k
+  · exact refl k
+
+theorem foldl {β : Type} (l : List β) (f : Kernel → β → Kernel)
+    (hf : ∀ k b, k.PosK → KDMono k (f k b) ∧ KStep k (f k b)) (k : Kernel) (hk : k.PosK) :
+    KDMono k (l.foldl f k) := by
+  induction l generalizing k with
+  | nil => exact refl k
+  | cons x xs ih =>
+    obtain ⟨h1, h2⟩ := hf k x hk
+    exact trans h1 (ih (f k x) (hk.step h2))
+
+theorem resolve (k : Kernel) (hk : k.PosK) : KDMono k k.resolve := by
+  unfold Kernel.resolve
+  apply foldl _ _ _ _ hk
+  intro k p0 hk
+  split
+  · rename_i p hp
+    split
+    · split
+      · refine ⟨dead _ _ _ ?_, KStep.dead _ _ _⟩
+        have hm : p ∈ k.procs := List.mem_of_find?_eq_some hp
+        exact hk _ (List.mem_map.mpr ⟨p, hm, rfl⟩)
+      · exact ⟨refl _, KStep.refl _⟩
+    · exact ⟨refl _, KStep.refl _⟩
+  · exact ⟨refl _, KStep.refl _⟩
+
+theorem tick (k : Kernel) (hk : k.PosK) : KDMono k k.tick := by
+  unfold Kernel.tick
+  have hk1 : ({ k with calls := k.calls + 1, armed := k.armed.filter (fun f => ¬ (f.1 ≤ k.calls + 1)) } : Kernel).PosK := hk
+  refine trans (b := { k with calls := k.calls + 1, armed := k.armed.filter (fun f => ¬ (f.1 ≤ k.calls + 1)) }) (same _ _ rfl) ?_
+  have hs : KStep ({ k with calls := k.calls + 1, armed := k.armed.filter (fun f => ¬ (f.1 ≤ k.calls + 1)) } : Kernel)
+      (List.foldl (fun k f => k.die f.2.1 f.2.2)
+        ({ k with calls := k.calls + 1, armed := k.armed.filter (fun f => ¬ (f.1 ≤ k.calls + 1)) } : Kernel)
+        (List.filter (fun f => decide (f.1 ≤ k.calls + 1)) k.armed)) :=
+    KStep.foldl _ _ (fun k f => KStep.die _ _ _) _
+  refine trans ?_ (resolve _ (hk1.step hs))
+  apply foldl _ _ _ _ hk1
+  intro k f hk; exact ⟨die _ _ _ hk, KStep.die _ _ _⟩
+
+theorem doomAt (k : Kernel) (pid dl st : Nat) : KDMono k (k.doomAt pid dl st) := by
+  unfold Kernel.doomAt
+  apply upd
+  intro p
+  split
+  · split
+    · exact ⟨rfl, rfl⟩
+    · exact ⟨rfl, rfl⟩
+  · exact ⟨rfl, rfl⟩
+
+theorem kill (pid sig : Nat) (k : Kernel) (hk : k.PosK) : KDMono k (Kernel.kill k pid sig).1 := by
+  simp only [Kernel.kill]
+  refine trans (tick k hk) ?_
+  have hk1 := hk.step (KStep.tick k)
+  generalize k.tick = k1 at hk1
+  split
+  · exact refl _
+  · split
+    · exact refl _
+    · split
+      · simp only
+        split
+        · exact trans (doomAt _ _ _ _) (resolve _ (hk1.step (KStep.doomAt _ _ _ _)))
+        · split
+          · exact resolve _ hk1
+          · split
+            · exact trans (doomAt _ _ _ _) (resolve _ (hk1.step (KStep.doomAt _ _ _ _)))
+            · exact resolve _ hk1
+      · exact refl _
+
+theorem waitpid (pid : Option Nat) (k : Kernel) (hk : k.PosK) : KDMono k (Kernel.waitpid k pid).1 := by
+  simp only [Kernel.waitpid]
+  refine trans (tick k hk) ?_
+  generalize k.tick = k1
+  split
+  · exact refl _
+  · exact refl _
+  · split
+    · exact refl _
+    · split
+      · exact refl _
+      · split
+        · exact refl _
+        · apply upd; intro p; exact ⟨rfl, rfl⟩
+
+theorem stateOf (pid : Nat) (k : Kernel) (hk : k.PosK) : KDMono k (Kernel.stateOf k pid).1 := tick k hk
+
+theorem children (pid : Nat) (r : Bool) (k : Kernel) (hk : k.PosK) : KDMono k (Kernel.children k pid r).1 := by
+  simp only [Kernel.children]
+  refine trans (tick k hk) ?_
+  generalize k.tick = k1
+  split
+  · exact refl _
+  · split
+    · exact refl _
+    · split <;> exact refl _
+
+theorem sleep (k : Kernel) (ms : Nat) (hk : k.PosK) : KDMono k (Kernel.sleep k ms) := by
+  simp only [Kernel.sleep]
+  exact trans (b := { k with now := k.now + (if ms = 0 then 1 else ms), slept := k.slept + (if ms = 0 then 1 else ms), spins := k.spins + 1 }) (same _ _ rfl) (tick _ hk)
+
+theorem beginStep (k : Kernel) : KDMono k k.beginStep := same _ _ rfl
+
+theorem advance (k : Kernel) (ms : Nat) (ds : List Nat) (hk : k.PosK) : KDMono k (k.advance ms ds) := by
+  unfold Kernel.advance
+  exact trans (b := { k with now := max k.now (min (k.now + ms) (ds.foldl min (k.now + ms))) }) (same _ _ rfl) (resolve _ hk)
+
+theorem addFault (k : Kernel) (n pid st : Nat) : KDMono k (k.addFault n pid st) := same _ _ rfl
+
+theorem setNow (k : Kernel) (t : Nat) (hk : k.PosK) : KDMono k ({ k with now := t }).resolve :=
+  trans (b := { k with now := t }) (same _ _ rfl) (resolve _ hk)
+
+theorem append (k k' : Kernel) (l : List KProc) (h : k'.procs = k.procs ++ l) : KDMono k k' := by
+  intro pid ⟨p, hp, hg⟩
+  refine ⟨p, ?_, hg⟩
+  simp only [Kernel.find] at hp ⊢
+  rw [h, List.find?_append, hp]
+  rfl
+
+theorem spawn (k : Kernel) (hk : k.PosK) : KDMono k k.spawn.1 := by
+  simp only [Kernel.spawn]
+  refine trans (tick k hk) ?_
+  generalize k.tick = k1
+  split
+  · exact same _ _ rfl
+  · exact append _ _ _ (List.append_assoc _ _ _)
+
+end KDMono
+
+/-- a process that is a child of the daemon is not "not a child of the daemon" -/
+theorem Kernel.DC.not_ndc {k : Kernel} {p : Nat} (h : k.DC p) : ¬ k.NDC p := by
+  obtain ⟨kp, hf, hp⟩ := h
+  rintro ⟨kp', hf', hp'⟩
+  rw [hf] at hf'
+  cases hf'
+  exact hp' hp
+
 end Circus.Core
